@@ -717,6 +717,18 @@ func main() {
 					return w.run(cfg, true, o, t, subs)
 				})
 			}
+			for k := 0; k < nRawKinds; k++ {
+				o, k, idx := o, k, h.Index()
+				h.Case(func(r *rng.R) sexp.Node {
+					t := &table{}
+					id := ids(idx)
+					subs := canonical(t, o, id)
+					for choice := 0; choice < 3; choice++ {
+						subs = append(subs, *rawSubOn(o, k, choice, id))
+					}
+					return w.run(cfg, true, o, t, subs)
+				})
+			}
 			n := len(malformedSubs(&table{}, o, rng.New(1), ids(0)))
 			for k := 0; k < n; k += 4 {
 				o, k, idx := o, k, h.Index()
@@ -764,6 +776,11 @@ func main() {
 					ms := malformedSubs(t, o, r, id)
 					for j, nm := 0, r.Range(1, 3); j < nm; j++ {
 						subs = append(subs, rng.Pick(r, ms)())
+					}
+				}
+				if r.Chance(1, 3) {
+					for j, nr := 0, r.Range(1, 2); j < nr; j++ {
+						subs = append(subs, *rawSub(o, r.Intn(nRawKinds), r, id))
 					}
 				}
 				if r.Chance(1, 40) {
